@@ -147,6 +147,11 @@ func genStdSession(rs uint64, prop string, o stdOpts) *Session {
 			sc.Dev.Modes = append(sc.Dev.Modes, q)
 			resp := `(?i)proceed\?|sure|continue\?`
 			op.Events = []EventSpec{{Input: c, Response: resp}, {Input: "y"}}
+			if r.IntN(3) == 0 {
+				// confirmed by the bare return key: an event with neither input nor response
+				q.Empty = q.Cmds["y"]
+				op.Events[1].Input = ""
+			}
 		case "callbacks":
 			qn++
 			c := g.cmd(pick(r, "copy", "install"))
